@@ -166,12 +166,21 @@ var (
 )
 
 // genVectorExpr: an instant-vector expression over one selector.
-func genVectorExpr(rt *rapid.T, sel string, depth int) string {
+// exprPref: the range and offset the sample generator was told about (anchors on window edges);
+// the expression uses them in most of its selectors.
+type exprPref struct{ rng, off int64 }
+
+func genVectorExpr(rt *rapid.T, sel string, depth int, pref exprPref) string {
 	off := ""
-	if chance(rt, 25, "offset") {
+	if pref.off > 0 && chance(rt, 80, "prefOffset") {
+		off = " offset " + durText(pref.off)
+	} else if pref.off == 0 && chance(rt, 10, "offset") {
 		off = " offset " + durText(pick(rt, offsets, "offsetMs"))
 	}
-	rng := pick(rt, ranges, "range")
+	rng := pref.rng
+	if chance(rt, 15, "otherRange") && pref.rng < 86_400_000 {
+		rng = pick(rt, ranges, "range")
+	}
 	switch k := between(rt, 0, 99, "exprKind"); {
 	case k < 14:
 		return sel + off
@@ -198,11 +207,11 @@ func genVectorExpr(rt *rapid.T, sel string, depth int) string {
 			return sel + off
 		}
 		op := pick(rt, []string{"+", "-", "*", "/", "> bool", ">", "and", "or", "unless"}, "binop")
-		l := genVectorExpr(rt, sel, depth+1)
+		l := genVectorExpr(rt, sel, depth+1, pref)
 		if chance(rt, 50, "scalarRhs") && op != "and" && op != "or" && op != "unless" {
 			return fmt.Sprintf("(%s) %s %d", l, op, between(rt, 1, 9, "scalar"))
 		}
-		return fmt.Sprintf("(%s) %s (%s)", l, op, genVectorExpr(rt, sel, depth+1))
+		return fmt.Sprintf("(%s) %s (%s)", l, op, genVectorExpr(rt, sel, depth+1, pref))
 	}
 }
 
@@ -243,15 +252,59 @@ func genE2E(rt *rapid.T) e2eCase {
 			c.Step = pick(rt, []int64{15000, 20000, 30000, 60000}, "bigStepMs")
 		}
 	}
-	// samples around the region the selectors can look at
-	lo, hi := c.Start-60_000, c.End
-	anchors := []int64{c.Start, c.End, c.Start - 5000, c.Start - 10000, c.Start - 30000, c.Start - 60000, c.Start - lookbackMs}
-	if c.Step > 0 {
-		anchors = append(anchors, c.Start+c.Step, c.Start+2*c.Step, c.Start+c.Step-5000)
+	pref := exprPref{rng: pick(rt, ranges, "range")}
+	if c.Step > 0 && pref.rng >= c.Step && chance(rt, 20, "stepAboveRange") {
+		if r := rangeBelow(rt, c.Step); r > 0 {
+			pref.rng = r
+		}
 	}
-	c.DB = genMDB(rt, 7, genSamplesFor(lo, hi, anchors))
+	if chance(rt, 25, "offset") {
+		pref.off = pick(rt, offsets, "offsetMs")
+	}
+	var gen func(rt *rapid.T, i int) ([]int64, []float64)
+	if chance(rt, 22, "acrossDays") {
+		// the select window contains a UTC midnight (days.go): a day-long range selector, or an
+		// evaluation time / query start next to the midnight after baseMs
+		if chance(rt, 45, "longRange") {
+			pref.rng = pick(rt, dayRanges, "dayRange")
+			if c.Instant {
+				c.Start = midnightRel + int64(between(rt, -7200, 7200, "aroundMidnightSec"))*1000
+				c.End = c.Start
+			} else {
+				n := (c.End - c.Start) / 15000
+				c.Start = midnightRel + int64(between(rt, -40, 40, "start15"))*15000
+				c.End = c.Start + n*15000
+			}
+			gen = genSamplesAcrossDays(c.Start-pref.off-pref.rng, c.End-pref.off)
+		} else {
+			if c.Instant {
+				c.Start = midnightRel + pref.off + int64(between(rt, 0, 580, "afterMidnight"))*500
+				c.End = c.Start
+			} else {
+				n := (c.End - c.Start) / 15000
+				c.Start = midnightRel - int64(between(rt, 0, int(n), "beforeMidnight15"))*15000
+				c.End = c.Start + n*15000
+			}
+			gen = genSamplesAcrossDays(c.Start-pref.off-lookbackMs, c.End-pref.off)
+		}
+	} else {
+		// samples around the region the selectors can look at; anchors on the edges of the look-back
+		// and range windows (with step > range: the lower edges T-range of the first windows)
+		s0, e0 := c.Start-pref.off, c.End-pref.off
+		lo, hi := s0-60_000, e0
+		anchors := []int64{s0, e0, s0 - pref.rng, s0 - pref.rng, s0 - 5000, s0 - 30000, s0 - lookbackMs}
+		if c.Step > 0 {
+			anchors = append(anchors, s0+c.Step, s0+c.Step-pref.rng, s0+2*c.Step-pref.rng, s0+c.Step-pref.rng)
+		}
+		if c.Step > pref.rng {
+			// step > range: the lower edges T-range of the first evaluation windows
+			anchors = []int64{s0 - pref.rng, s0 - pref.rng, s0 + c.Step - pref.rng, s0 + c.Step - pref.rng, s0 + 2*c.Step - pref.rng, s0, e0}
+		}
+		gen = genSamplesFor(lo, hi, anchors)
+	}
+	c.DB = genMDB(rt, 7, gen)
 	ms := genMatchers(rt, &c.DB, 2)
-	c.Expr = genVectorExpr(rt, selectorText(rt, ms), 0)
+	c.Expr = genVectorExpr(rt, selectorText(rt, ms), 0, pref)
 	return c
 }
 
@@ -368,7 +421,7 @@ func predE2E(c e2eCase, o *evid.Obs) error {
 		return nil
 	}
 	// absent-label convention: find the selectors' matchers through the parser's own walk
-	dc, nsel, nrej, hints, err := c.selectionClasses()
+	dc, nsel, nrej, hints, selMatchers, err := c.selectionClasses()
 	if err != nil {
 		return err
 	}
@@ -495,6 +548,35 @@ func predE2E(c e2eCase, o *evid.Obs) error {
 	if strings.Contains(c.Expr, ") + (") || strings.Contains(c.Expr, " and ") || strings.Contains(c.Expr, " or ") || strings.Contains(c.Expr, " unless ") || strings.Contains(c.Expr, ") / (") {
 		o.Tag("expr:binary")
 	}
+	crosses, many, early, lastOnly, lowerEdge := false, false, false, false, false
+	for i := range hints {
+		h := &hints[i]
+		sel := func(s *mSeries) bool { return i < len(selMatchers) && directSelect(s, selMatchers[i]) == vSelect }
+		if span, e, l := dayClasses(&c.DB, sel, h); span > 0 {
+			crosses, many, early, lastOnly = true, many || span > 1, early || e, lastOnly || l
+		}
+		if h.Range > 0 && h.Step > h.Range && onLowerEdge(&c.DB, sel, h) {
+			lowerEdge = true
+		}
+	}
+	if crosses {
+		o.Tag("window-crosses-midnight")
+		if many {
+			o.Tag("window-spans-3+-days")
+		}
+		if early {
+			o.Tag("midnight:selected-series-stops-before-last-day")
+		}
+		if lastOnly {
+			o.Tag("midnight:selected-series-only-on-last-day")
+		}
+		if early && lastOnly {
+			o.Tag("midnight:both-kinds")
+		}
+	}
+	if lowerEdge {
+		o.Tag("step>range:sample-on-window-lower-edge")
+	}
 	for _, h := range hints {
 		if rawOnlyByStep(&h) {
 			if c.Instant {
@@ -534,12 +616,12 @@ func (c *e2eCase) describe() string {
 
 // selectionClasses records, through a Queryable that only observes, which matcher sets the
 // engine hands to Select for this expression, and classifies the stored series.
-func (c *e2eCase) selectionClasses() (dontCare bool, nsel, nrej int, hints []storage.SelectHints, err error) {
+func (c *e2eCase) selectionClasses() (dontCare bool, nsel, nrej int, hints []storage.SelectHints, selMatchers [][]*labels.Matcher, err error) {
 	spy := &spyQueryable{db: &c.DB}
 	if _, err = c.run(newEngine(0), spy); err != nil {
-		return false, 0, 0, nil, fmt.Errorf("reference run failed: %v", err)
+		return false, 0, 0, nil, nil, fmt.Errorf("reference run failed: %v", err)
 	}
-	hints = spy.hints
+	hints, selMatchers = spy.hints, spy.seen
 	for _, ms := range spy.seen {
 		s, r := 0, 0
 		for i := range c.DB.Series {
